@@ -154,6 +154,7 @@ def check_distribution(dist, u_full, n_real, occ_in_real, trunc=1e-9):
 
 
 SRC_MAX_PHOTONS = 4
+MAX_REF_PATTERNS = 3500     # reference distributions above this many full output patterns are skipped and counted
 DET_LOG = None     # set to a dict by a check to collect (settings -> in_state -> out_state -> count)
 
 
@@ -336,7 +337,7 @@ def install():
         res = orig_fpd(self, circuit, input_state)
         try:
             occ = list(input_state)
-            if sum(occ) <= 6 and circuit.total_modes <= 14:
+            if boson.n_fock(circuit.total_modes, sum(occ)) <= MAX_REF_PATTERNS:
                 problems = check_distribution(res, circuit.U_full, circuit.n_modes, occ)
                 STATS["backend_dist_postconditions"] += 1
                 STATS["backend_dist_postconditions:" + self.backend] += 1
@@ -369,7 +370,7 @@ def install():
                 c = self.circuit
                 occ = insert_heralds(self.input_state.s, c.heralds["input"])
                 u = c.U_full
-                if ideal and sum(occ) <= 6 and u.shape[0] <= 14:
+                if ideal and boson.n_fock(u.shape[0], sum(occ)) <= MAX_REF_PATTERNS:
                     problems = check_distribution(res, u, c.n_modes, occ)
                     STATS["sampler_dist_postconditions"] += 1
                     for p in problems:
